@@ -138,7 +138,7 @@ func init() {
 		partIDGenerator(c, a)
 		partAllocStorms(c, a)
 		partStoreStress(c, a) // concurrent registration of type names (ids and names one-to-one)
-		partStepThrough(c, a, []string{"create", "lastleave", "switch"})
+		partStepThrough(c, a, []string{"create", "lastleave", "switch", "join-vs-lastleave"})
 		partRealRegistryAcrossReregistration(c, a)
 		return a.finish(c)
 	}
